@@ -50,7 +50,8 @@ def queue_access(analysis: Analysis, res: RuleResult) -> None:
             elif isinstance(par, ast.UnaryOp) and isinstance(par.op, ast.Not):
                 kind = "truth-test"
             elif isinstance(par, ast.Assign) and node in par.targets:
-                kind = "init" if fn.split(".")[-1] in ("__init__", "__setstate__") and "deque()" in unparse(par.value) else "reassigned"
+                ctor_like = fn.split(".")[-1] in ("__init__", "__setstate__") or common.owned_by(analysis, fn, {q for q in analysis.p.funcs if q.split(".")[-1] in ("__init__", "__setstate__")})
+                kind = "init" if ctor_like and "deque()" in unparse(par.value) else "reassigned"
             else:
                 kind = f"other:{type(par).__name__}"
             n += 1
@@ -92,6 +93,11 @@ def flush_worker(analysis: Analysis, spec) -> dict:
         pending = None
         desired_started = False
         npop = ndes = 0
+        for e in s.events:
+            if e.kind == "enter" and e.name == CTOR and FLUSH in e.stack and len(e.args) >= 5:
+                k = e.args[4].key()
+                if ("notnone", k) not in (e.facts or ()) and ("truthy", k) not in (e.facts or ()):
+                    problems.append("a set command is built for a desired value that may be None (confirmed / never set)")
         for what, e in seq:
             if what == "pop":
                 npop += 1
@@ -332,7 +338,6 @@ def run(analysis: Analysis, tier: str) -> RuleResult:
         res.add("C08-R2", f"{FLUSH} / every path has the flush shape", not probs, "mysensors/handler.py", f"{len(rows)} paths: drain until empty, each popped reply enqueued once in order, then one set per pending desired value" if not probs else "; ".join(probs), None, context=summ["ctx"])
         for p, w in probs.items():
             res.add("C08-R2", f"{FLUSH} / {p}", False, "mysensors/handler.py", p, w, context=summ["ctx"])
-    desired_none_skipped(analysis, res)
     confirmation_rule(analysis, res, "C08-R3")
     lookup_rule(analysis, res, "C08-R4", "C08-R6")
     accept_rule(analysis, res, "C08-R5")
